@@ -56,6 +56,7 @@ class Protocol:
             raise Exception(f"pop: expected exactly one wait site, got {[s.resume for s in waits]}")
         self.S["pop_resume"] = bm.summarize("pop", self.g, entry_bb=waits[0].resume, resume=True)
         self.init_mk = bm.initial_market(z3.IntVal(T))
+        self.P0 = z3.Int("P0")  # size of the initial batch pushed by spawn()
         self.n_summaries = sum(len(v) for v in self.S.values())
 
     # ---- instantiate a summary on concrete state terms ------------------------------------------
@@ -139,7 +140,9 @@ class Protocol:
                 # a worker that pops an EMPTY batch (only possible for an empty initial push) takes it
                 # for "no more work" and leaves: that is a stop reason like finish/panic
                 is_batch = not (z3.is_int_value(z3.simplify(sm.ret_len)) and z3.simplify(sm.ret_len).as_long() == 0)
-                stop2 = z3.Or(s.stop_req, rl == 0) if is_batch else s.stop_req
+                # ... but only the initial push can legitimately be empty (no initial states): an empty
+                # batch handed out later is a broker defect and must not be excused as a stop reason
+                stop2 = z3.Or(s.stop_req, z3.And(rl == 0, self.P0 == 0)) if is_batch else s.stop_req
                 return [t.pc[w] == z3.If(rl > 0, HAVE_WORK, DROPPING), t.L[w] == rl, t.notif[w] == False,
                         t.consumed == s.consumed, t.generated == s.generated, t.stop_req == stop2] + qbad
 
@@ -181,7 +184,8 @@ class Protocol:
             alts.append(z3.Or(*moves))
         return z3.Or(*alts), who
 
-    def init(self, s: SysState, P0):
+    def init(self, s: SysState, P0=None):
+        P0 = self.P0
         """JobBroker::new(T, None); push(pending) with |pending| = P0; T workers about to pop."""
         pushes = [sm for sm in self.S["push"] if sm.kind == "return"]
         alts = []
@@ -217,8 +221,10 @@ class Protocol:
                   z3.Implies(s.pc[w] == HAVE_WORK, s.L[w] >= 1),
                   # while the market is open nobody has left
                   z3.Implies(s.mk.open, z3.And(s.pc[w] != DONE, z3.Not(s.stop_req) if False else True))]
-        for sl in s.mk.slots:
+        for i, sl in enumerate(s.mk.slots):
             c += [sl >= 0, sl <= self.lmax]
+            # batches in the market are never empty (except an empty initial push)
+            c.append(z3.Implies(z3.And(self.P0 > 0, s.mk.n > i), sl >= 1))
         # the last-worker rule never closed the market while work existed, and a market that is
         # closed although nobody asked to stop means every worker is idle (quiescence)
         c.append(z3.Not(s.qclose_bad))
